@@ -470,14 +470,21 @@ fn parse_new_float(input: &[u8]) -> NomResult<'_, OwnedTerm> {
     Ok((input, OwnedTerm::Float(value)))
 }
 
+// ATOM_EXT and SMALL_ATOM_EXT carry Latin-1 text: every byte is one code point.
+fn latin1_to_cow(bytes: &[u8]) -> Cow<'_, str> {
+    match str::from_utf8(bytes) {
+        Ok(s) if bytes.is_ascii() => Cow::Borrowed(s),
+        _ => Cow::Owned(bytes.iter().map(|&b| b as char).collect()),
+    }
+}
+
 fn parse_atom_latin1(input: &[u8]) -> NomResult<'_, OwnedTerm> {
     let (input, len) = be_u16(input)?;
     if len as usize > MAX_ATOM_SIZE {
         return Err(nom::Err::Failure(NomError::new(input, ErrorKind::TooLarge)));
     }
     let (input, bytes) = take(len as usize)(input)?;
-    let name = str::from_utf8(bytes)
-        .map_err(|_| nom::Err::Failure(NomError::new(input, ErrorKind::Char)))?;
+    let name = latin1_to_cow(bytes);
     Ok((input, OwnedTerm::Atom(Atom::new(name))))
 }
 
@@ -509,8 +516,7 @@ fn parse_small_atom_latin1(input: &[u8]) -> NomResult<'_, OwnedTerm> {
         return Err(nom::Err::Failure(NomError::new(input, ErrorKind::TooLarge)));
     }
     let (input, bytes) = take(len as usize)(input)?;
-    let name = str::from_utf8(bytes)
-        .map_err(|_| nom::Err::Failure(NomError::new(input, ErrorKind::Char)))?;
+    let name = latin1_to_cow(bytes);
     Ok((input, OwnedTerm::Atom(Atom::new(name))))
 }
 
@@ -964,9 +970,7 @@ fn parse_atom_latin1_borrowed(input: &[u8]) -> NomResult<'_, BorrowedTerm<'_>> {
         return Err(nom::Err::Failure(NomError::new(input, ErrorKind::TooLarge)));
     }
     let (input, bytes) = take(len as usize)(input)?;
-    let name = str::from_utf8(bytes)
-        .map_err(|_| nom::Err::Failure(NomError::new(input, ErrorKind::Char)))?;
-    Ok((input, BorrowedTerm::Atom(Cow::Borrowed(name))))
+    Ok((input, BorrowedTerm::Atom(latin1_to_cow(bytes))))
 }
 
 fn parse_atom_utf8_borrowed(input: &[u8]) -> NomResult<'_, BorrowedTerm<'_>> {
